@@ -1,3 +1,151 @@
-//! C09/C10(query)/C11 — backward chaining (to be filled in)
+//! C09 / C11 (and the query part of C10) — backward chaining on Horn-style rule sets built with the Rule API.
+//! case = (strategy max_depth max_solutions det (rule ...) facts (op ...)) — encodings in coq/Model/Backward.v.
+//! observation = ((verdict ...) (per-op details)) where a query's details are (provable facts-before facts-after).
+use crate::c01;
+use crate::rng::Rng;
 use crate::sx::Sx;
-pub fn run_c10_query(_case: &Sx) -> (Sx, String) { panic!("not implemented") }
+use crate::Tier;
+use rust_rule_engine::backward::backward_engine::{BackwardConfig, BackwardEngine};
+use rust_rule_engine::backward::search::SearchStrategy;
+use rust_rule_engine::engine::facts::Facts;
+use rust_rule_engine::engine::knowledge_base::KnowledgeBase;
+use rust_rule_engine::engine::rule::{Condition, ConditionGroup, Rule};
+use rust_rule_engine::types::{ActionType, Operator, Value};
+
+const FIELDS: &[&str] = &["F0", "F1", "F2", "F3", "F4", "F5", "Obj.a", "Obj.b"];
+#[derive(Clone, Copy, PartialEq)]
+enum T { B, I, S }
+const KIND: &[T] = &[T::B, T::B, T::B, T::I, T::I, T::S, T::B, T::I];
+
+fn v_bool(b: bool) -> Sx { Sx::l(vec![Sx::n(3), Sx::b(b)]) }
+fn v_int(z: i64) -> Sx { Sx::l(vec![Sx::n(0), Sx::i(z)]) }
+fn v_str(s: &str) -> Sx { Sx::l(vec![Sx::n(2), Sx::s(s)]) }
+/// the designated value of a field (what a consistent rule concludes) and a wrong one
+fn good(i: usize) -> Sx { match KIND[i] { T::B => v_bool(true), T::I => v_int(5 + i as i64), T::S => v_str("gold") } }
+fn wrong(i: usize, rng: &mut Rng) -> Sx { match KIND[i] { T::B => v_bool(false), T::I => v_int(*rng.pick(&[0i64, 1, 99])), T::S => v_str("silver") } }
+
+fn leaf(rng: &mut Rng, live: &[usize]) -> Sx {
+    let i = *rng.pick(live);
+    let (op, v) = match (KIND[i], rng.below(6)) {
+        (T::I, 0) => (3u64, v_int(3)),                       // >= 3 (holds of the designated value)
+        (T::I, 1) => (4u64, v_int(100)),                     // < 100
+        (_, 2) => if rng.chance(1, 2) { (0u64, wrong(i, rng)) } else { (0u64, good(i)) },   // sometimes a dead end: a value nobody concludes
+        _ => (0u64, good(i)),
+    };
+    Sx::l(vec![Sx::n(0), Sx::s(FIELDS[i]), Sx::n(op), v])
+}
+fn group(rng: &mut Rng, live: &[usize], depth: u32, conj_only: bool) -> Sx {
+    if depth == 0 || rng.chance(1, 2) { return leaf(rng, live); }
+    let k = if conj_only || rng.chance(2, 3) { 1 } else { 2 };
+    Sx::l(vec![Sx::n(k), group(rng, live, depth - 1, conj_only), group(rng, live, depth - 1, conj_only)])
+}
+
+fn gen_case(rng: &mut Rng, history: bool) -> Sx {
+    let nf = rng.range(3, FIELDS.len() as u64) as usize;
+    let live: Vec<usize> = (0..nf).collect();
+    let nr = rng.range(1, 8) as usize;
+    let conj_only = rng.chance(1, 2);
+    let det = rng.chance(2, 3);
+    // det: every field is concluded by at most one rule, with its designated value
+    let mut targets: Vec<usize> = live.clone(); rng.shuffle(&mut targets);
+    let mut rules = vec![];
+    for r in 0..nr {
+        let mut sets = vec![];
+        if det {
+            if r >= targets.len() { break; }
+            sets.push(Sx::l(vec![Sx::s(FIELDS[targets[r]]), good(targets[r])]));
+        } else {
+            for _ in 0..rng.range(1, 2) {
+                let t = *rng.pick(&live);
+                let v = if rng.chance(1, 5) { wrong(t, rng) } else { good(t) };
+                sets.push(Sx::l(vec![Sx::s(FIELDS[t]), v]));
+            }
+        }
+        let d = *rng.pick(&[0u32, 1, 1, 2]);
+        rules.push(Sx::l(vec![group(rng, &live, d, conj_only), Sx::l(sets)]));
+    }
+    // initial facts: some fields present with their designated value (monotone), rarely with a wrong value
+    let mut facts = vec![];
+    for &i in &live { if rng.chance(2, 5) { let v = if !det && rng.chance(1, 8) { wrong(i, rng) } else { good(i) }; facts.push(Sx::l(vec![Sx::s(FIELDS[i]), v])); } }
+    let goal = |rng: &mut Rng| { let i = *rng.pick(&live);
+        let (op, v) = match (KIND[i], rng.below(8)) { (T::I, 0) => (3u64, v_int(3)), (_, 1) => (0u64, wrong(i, rng)), _ => (0u64, good(i)) };
+        Sx::l(vec![Sx::s(FIELDS[i]), Sx::n(op), v]) };
+    let mut ops = vec![];
+    if history {
+        for _ in 0..rng.range(2, 6) {
+            ops.push(match rng.below(8) {
+                0 => { let i = *rng.pick(&live); let v = if rng.chance(1, 3) && !det { wrong(i, rng) } else { good(i) }; Sx::l(vec![Sx::n(1), Sx::s(FIELDS[i]), v]) }
+                1 | 2 => Sx::l(vec![Sx::n(2), Sx::s(FIELDS[*rng.pick(&live)])]),
+                _ => Sx::l(vec![Sx::n(0), goal(rng)]),
+            });
+        }
+        // the same query twice with a change of the facts in between is the interesting shape: make it likely
+        if rng.chance(1, 2) { let g = goal(rng); let i = *rng.pick(&live);
+            ops.push(Sx::l(vec![Sx::n(0), g.clone()])); ops.push(Sx::l(vec![Sx::n(2), Sx::s(FIELDS[i])])); ops.push(Sx::l(vec![Sx::n(0), g])); }
+    } else { ops.push(Sx::l(vec![Sx::n(0), goal(rng)])); }
+    let strategy = *rng.pick(&[0u64, 0, 0, 1, 2]);
+    // the search is exponential in the depth bound on cyclic rule sets: deep bounds only for small or deterministic sets
+    let md = if det || nr <= 3 { *rng.pick(&[0u64, 1, 2, 3, 6, 10]) } else if nr <= 5 { *rng.pick(&[0u64, 1, 2, 3, 4]) } else { *rng.pick(&[0u64, 1, 2, 3]) };
+    let maxsol = *rng.pick(&[1u64, 1, 3]);
+    Sx::l(vec![Sx::n(strategy), Sx::n(md), Sx::n(maxsol), Sx::b(det), Sx::l(rules), Sx::l(facts), Sx::l(ops)])
+}
+
+pub fn gen(tier: Tier, rng: &mut Rng) -> Vec<Sx> { let n = if tier == Tier::Thorough { 200000 } else { 12000 }; (0..n).map(|_| gen_case(rng, false)).collect() }
+pub fn gen_c11(tier: Tier, rng: &mut Rng) -> Vec<Sx> { let n = if tier == Tier::Thorough { 100000 } else { 8000 }; (0..n).map(|_| gen_case(rng, true)).collect() }
+
+fn op_of(o: u64) -> (Operator, &'static str) {
+    match o { 0 => (Operator::Equal, "=="), 1 => (Operator::NotEqual, "!="), 2 => (Operator::GreaterThan, ">"), 3 => (Operator::GreaterThanOrEqual, ">="),
+              4 => (Operator::LessThan, "<"), _ => (Operator::LessThanOrEqual, "<=") }
+}
+fn cond_of(c: &Sx) -> ConditionGroup {
+    match c.at(0).as_u() {
+        0 => ConditionGroup::single(Condition::new(c.at(1).as_s(), op_of(c.at(2).as_u()).0, c01::val_of_sx(c.at(3)))),
+        1 => ConditionGroup::and(cond_of(c.at(1)), cond_of(c.at(2))),
+        _ => ConditionGroup::or(cond_of(c.at(1)), cond_of(c.at(2))),
+    }
+}
+fn lit_text(v: &Sx) -> String { match v.at(0).as_u() { 0 => format!("{}", v.at(1).as_i()), 2 => format!("\"{}\"", v.at(1).as_s()), _ => if v.at(1).as_b() { "true".into() } else { "false".into() } } }
+
+pub fn run(case: &Sx) -> (Sx, String) {
+    let kb = KnowledgeBase::new("c09");
+    for (i, r) in case.at(4).as_l().iter().enumerate() {
+        let acts = r.at(1).as_l().iter().map(|kv| ActionType::Set { field: kv.at(0).as_s(), value: c01::val_of_sx(kv.at(1)) }).collect();
+        kb.add_rule(Rule::new(format!("R{}", i), cond_of(r.at(0)), acts)).unwrap();
+    }
+    let config = BackwardConfig {
+        max_depth: case.at(1).as_us(),
+        strategy: match case.at(0).as_u() { 0 => SearchStrategy::DepthFirst, 1 => SearchStrategy::BreadthFirst, _ => SearchStrategy::Iterative },
+        enable_memoization: true,
+        max_solutions: case.at(2).as_us(),
+    };
+    let mut engine = BackwardEngine::with_config(kb, config);
+    let mut facts = Facts::new();
+    for kv in case.at(5).as_l() { facts.set(&kv.at(0).as_s(), c01::val_of_sx(kv.at(1))); }
+    let (mut verdicts, mut details) = (vec![], vec![]);
+    let (mut nq, mut nyes) = (0, 0);
+    for op in case.at(6).as_l() {
+        match op.at(0).as_u() {
+            0 => {
+                let g = op.at(1);
+                let q = format!("{} {} {}", g.at(0).as_s(), op_of(g.at(1).as_u()).1, lit_text(g.at(2)));
+                let before = c01::sx_of_facts(&facts.get_all_facts());
+                let res = engine.query(&q, &mut facts).expect("query");
+                let after = c01::sx_of_facts(&facts.get_all_facts());
+                nq += 1; if res.provable { nyes += 1; }
+                verdicts.push(Sx::l(vec![Sx::b(res.provable)]));
+                details.push(Sx::l(vec![Sx::b(res.provable), before, after]));
+            }
+            1 => { facts.set(&op.at(1).as_s(), c01::val_of_sx(op.at(2))); verdicts.push(Sx::l(vec![])); details.push(Sx::l(vec![])); }
+            _ => { facts.remove(&op.at(1).as_s()); verdicts.push(Sx::l(vec![])); details.push(Sx::l(vec![])); }
+        }
+    }
+    let label = if nyes == 0 { "trivial: nothing provable".to_string() } else { format!("s{} {} of {} provable", case.at(0).as_u(), nyes.min(3), nq.min(6)) };
+    (Sx::l(vec![Sx::l(verdicts), Sx::l(details)]), label)
+}
+
+/// C10, query part: case = (1 backward-case)
+pub fn run_c10_query(case: &Sx) -> (Sx, String) { let (o, l) = run(case.at(1)); (o, format!("query {}", l)) }
+pub fn gen_c10_queries(tier: Tier, rng: &mut Rng) -> Vec<Sx> {
+    let n = if tier == Tier::Thorough { 100000 } else { 6000 };
+    (0..n).map(|i| Sx::l(vec![Sx::n(1), gen_case(rng, i % 3 == 0)])).collect()
+}
